@@ -79,8 +79,12 @@ impl Cw20Scen {
                 Some(p) if !p.is_empty() => {
                     // the cursor is the key part (up to the first ':')
                     let last = p.last().unwrap().clone();
-                    cursor = Some(last.split(':').next().unwrap().to_string());
+                    let next = Some(last.split(':').next().unwrap().to_string());
                     out.extend(p);
+                    if next == cursor {
+                        break; // no progress (a defect in the code under test): do not walk forever
+                    }
+                    cursor = next;
                 }
                 _ => break,
             }
